@@ -29,7 +29,7 @@ class Cfg(object):
     """Configuration of one system: client side, server side(s), requests."""
 
     def __init__(self, c=None, s=None, reqs=None, answer="now", via="plain", resp_kind="ack", peerinfo=False,
-                 reorder=1, dupcap=1, label=None, views=None, reannounce=None):
+                 reorder=1, dupcap=1, label=None, views=None, reannounce=None, sidetalk=False):
         self.c = side(**(c or {}))
         self.s = side(**(s or {}))
         self.reqs = list(reqs or [(0, 0)])      # (request payload length, response payload length) per request
@@ -45,29 +45,33 @@ class Cfg(object):
         self.views = views or {}
         # the server changes its capabilities and re-announces them at an explorer-chosen point: {...side overrides...}
         self.reannounce = reannounce
+        # the client application also sends an unconfirmed request of its own straight to the server (app.request, no
+        # IOCB) at an explorer-chosen point while its confirmed requests are under way
+        self.sidetalk = sidetalk
 
     def key(self):
         return (tuple(sorted(self.c.items())), tuple(sorted(self.s.items())), tuple(self.reqs), self.answer, self.via,
                 self.resp_kind, self.peerinfo, self.reorder, self.dupcap, repr(sorted(self.views.items())),
-                repr(self.reannounce))
+                repr(self.reannounce), self.sidetalk)
 
     def describe(self):
         def short(d):
             return {k: v for k, v in d.items() if DEFAULTS.get(k) != v}
         return {"client": short(self.c), "server": short(self.s), "reqs": self.reqs, "answer": self.answer,
                 "via": self.via, "resp_kind": self.resp_kind, "peerinfo": self.peerinfo, "views": self.views,
-                "reannounce": self.reannounce}
+                "reannounce": self.reannounce, "sidetalk": self.sidetalk}
 
     def to_json(self):
         return {"c": self.c, "s": self.s, "reqs": [list(r) for r in self.reqs], "answer": self.answer, "via": self.via,
                 "resp_kind": self.resp_kind, "peerinfo": self.peerinfo, "reorder": self.reorder, "dupcap": self.dupcap,
-                "label": self.label, "views": self.views, "reannounce": self.reannounce}
+                "label": self.label, "views": self.views, "reannounce": self.reannounce, "sidetalk": self.sidetalk}
 
     @classmethod
     def from_json(cls, d):
         return cls(c=d["c"], s=d["s"], reqs=[tuple(r) for r in d["reqs"]], answer=d["answer"], via=d["via"],
                    resp_kind=d["resp_kind"], peerinfo=d["peerinfo"], reorder=d.get("reorder", 1),
-                   dupcap=d.get("dupcap", 1), label=d.get("label"), views=d.get("views"), reannounce=d.get("reannounce"))
+                   dupcap=d.get("dupcap", 1), label=d.get("label"), views=d.get("views"), reannounce=d.get("reannounce"),
+                   sidetalk=d.get("sidetalk", False))
 
 
 def _device(name, ident, sd):
@@ -110,6 +114,7 @@ class AppSystem(object):
         self.server.answer_mode = cfg.answer
         self.server.resp_kind = cfg.resp_kind
         self.reannounced = False
+        self.sidetalked = False
         if cfg.peerinfo in (True, "record"):
             c_of_s = dict(cfg.s)
             c_of_s.update(cfg.views.get("c_of_s", {}))
@@ -211,6 +216,8 @@ class AppSystem(object):
         extra = []
         if self.cfg.reannounce and not self.reannounced and (fl or nd is not None):
             extra.append(("reannounce", 1))
+        if self.cfg.sidetalk and not self.sidetalked and (fl or nd is not None):
+            extra.append(("sidetalk", 1))
         if fl:
             m.append(("deliver0", 0))
             m.append(("drop0", 1))
@@ -265,6 +272,22 @@ class AppSystem(object):
             dev.maxApduLengthAccepted = sd["maxapdu"]
             dev.segmentationSupported = sd["seg"]
             self._send_iam(self.server, sd)
+        elif label == "sidetalk":
+            # an unconfirmed request of the client application's own to the same peer, through the application's
+            # documented entry point for unconfirmed requests; delivered at once (it is not what is being explored)
+            from bacpypes.apdu import UnconfirmedPrivateTransferRequest
+            self.sidetalked = True
+            req = UnconfirmedPrivateTransferRequest(vendorID=999, serviceNumber=77)
+            req.pduDestination = self.server.address
+            try:
+                self.client.request(req)
+            except Exception as err:
+                self.errors.append("sidetalk:%s:%s" % (type(err).__name__, str(err)[:100]))
+            vclock.settle()
+            for i in range(len(w.inflight) - 1, -1, -1):
+                if w.inflight[i].data[2:4] == bytes([0x10, 0x04]):
+                    w.deliver(i)
+                    break
         elif label.startswith("answer"):
             try:
                 self.server.answer(int(label[6:]))
